@@ -630,8 +630,10 @@ public:
   template <class F, class... A>
   explicit thread(F &&f, A &&...a)
   {
-    auto fn = std::bind(std::forward<F>(f), std::forward<A>(a)...);
-    tid_    = Sched::I().spawn([fn]() mutable { fn(); });
+    // the callable may be move-only (e.g. a lambda that captured a promise): keep it behind a shared_ptr
+    auto bound = std::bind(std::forward<F>(f), std::forward<A>(a)...);
+    auto fn    = std::make_shared<decltype(bound)>(std::move(bound));
+    tid_       = Sched::I().spawn([fn]() { (*fn)(); });
     Sched::I().log("spawn " + std::to_string(tid_));
   }
   thread(thread &&o) noexcept : tid_(o.tid_) { o.tid_ = -1; }
@@ -664,6 +666,90 @@ public:
 
 private:
   int tid_;
+};
+
+// ------------------------------------------------------------------------------ promise / future (void only)
+enum class future_status { ready, timeout, deferred };
+struct FutState
+{
+  bool ready = false;
+};
+template <class T>
+class future;
+template <class T>
+class promise;
+template <>
+class future<void>
+{
+public:
+  future() noexcept {}
+  explicit future(std::shared_ptr<FutState> s) : st_(std::move(s)) {}
+  future(future &&)            = default;
+  future &operator=(future &&) = default;
+  bool valid() const noexcept { return (bool)st_; }
+  template <class Rep, class Period>
+  future_status wait_for(const std::chrono::duration<Rep, Period> &d)
+  {
+    Sched &S = Sched::I();
+    long long now = S.peek_ns();
+    long double ns = std::chrono::duration<long double, std::nano>(d).count();
+    long long dl = ns <= 0 ? now : (ns > 4.0e18L - (long double)now ? 4000000000000000000LL : now + (long long)ns);
+    for (;;)
+    {
+      if (st_->ready)
+      {
+        S.log("fut ready");
+        return future_status::ready;
+      }
+      if (dl <= S.peek_ns())
+      {
+        S.log("fut timeout");
+        return future_status::timeout;
+      }
+      Pending p;
+      p.kind  = P_CVWAIT;
+      p.obj   = st_.get();
+      p.timed = true;
+      int flag = S.point(p);
+      S.take_notified();
+      if (!st_->ready && flag == 1) S.advance_to(dl);
+    }
+  }
+  void wait()
+  {
+    while (!st_->ready)
+    {
+      Pending p;
+      p.kind = P_CVWAIT;
+      p.obj  = st_.get();
+      Sched::I().point(p);
+      Sched::I().take_notified();
+    }
+    Sched::I().log("fut ready");
+  }
+  void get() { wait(); }
+
+private:
+  std::shared_ptr<FutState> st_;
+};
+template <>
+class promise<void>
+{
+public:
+  promise() : st_(std::make_shared<FutState>()) {}
+  promise(promise &&)            = default;
+  promise &operator=(promise &&) = default;
+  promise(const promise &)       = delete;
+  future<void> get_future() { return future<void>(st_); }
+  void set_value()
+  {
+    st_->ready = true;
+    Sched::I().notify_waiters(st_.get());
+    Sched::I().log("setvalue");
+  }
+
+private:
+  std::shared_ptr<FutState> st_;
 };
 
 namespace this_thread
